@@ -18,6 +18,7 @@ from .. import (
     NamedType,
     NonNullType,
     ObjectType,
+    ScalarType,
     Schema,
     UnionType,
     is_introspection_type,
@@ -182,6 +183,25 @@ def _find_added_types(old: Schema, new: Schema) -> Iterator[SchemaChange]:
             yield TypeAdded(name)
 
 
+_KINDS = (
+    ScalarType,
+    ObjectType,
+    InterfaceType,
+    UnionType,
+    EnumType,
+    InputObjectType,
+)
+
+
+def _kind_of(type_: NamedType) -> Type[NamedType]:
+    # The GraphQL kind, not the Python class: a RegexType or a user defined
+    # ScalarType subclass is still a scalar.
+    for kind in _KINDS:
+        if isinstance(type_, kind):
+            return kind
+    return type_.__class__
+
+
 def _find_changed_types(old: Schema, new: Schema) -> Iterator[SchemaChange]:
     for name, old_type in old.types.items():
         try:
@@ -189,10 +209,9 @@ def _find_changed_types(old: Schema, new: Schema) -> Iterator[SchemaChange]:
         except KeyError:
             pass
         else:
-            if old_type.__class__ != new_type.__class__:
-                yield TypeChangedKind(
-                    name, old_type.__class__, new_type.__class__
-                )
+            old_kind, new_kind = _kind_of(old_type), _kind_of(new_type)
+            if old_kind != new_kind:
+                yield TypeChangedKind(name, old_kind, new_kind)
 
 
 def _diff_union_types(old: Schema, new: Schema) -> Iterator[SchemaChange]:
